@@ -56,13 +56,28 @@ def argsMentionLoop : List Expr → Bool
   | e :: es => exprMentionsLoop e || argsMentionLoop es
 end
 
+/-- `LoopVariable` (`mangle_mako_loop`): any reference anywhere below, through every tag -/
+def mentionsLoopDeep : Tmpl → Bool
+  | .seq a b => mentionsLoopDeep a || mentionsLoopDeep b
+  | .expr e _ => exprMentionsLoop e
+  | .ite c t e => exprMentionsLoop c || mentionsLoopDeep t || mentionsLoopDeep e
+  | .for_ _ items body => argsMentionLoop items || mentionsLoopDeep body
+  | .while_ _ body => mentionsLoopDeep body
+  | .try_ b h => mentionsLoopDeep b || mentionsLoopDeep h
+  | .def_ _ _ _ body => mentionsLoopDeep body
+  | .block _ _ _ body => mentionsLoopDeep body
+  | .call _ _ body => mentionsLoopDeep body   -- `LoopVariable` has no visitCallTag: the tag's `expr` is not looked at
+  | _ => false
+
 /-- `'loop' in undeclared` as `_Identifiers` computes it for one scope: the scope's own expressions and
-    control lines and the content of its blocks; not the content of nested defs or `<%call>` bodies -/
+    control lines and the content of its blocks; not the content of nested defs or `<%call>` bodies – except that
+    a `% for` which `mangle_mako_loop` will rewrite (a mention of `loop` anywhere below it, `mentionsLoopDeep`)
+    counts as a reference itself, so that the callable holding it creates its `__M_loop` -/
 def refsLoop : Tmpl → Bool
   | .seq a b => refsLoop a || refsLoop b
   | .expr e _ => exprMentionsLoop e
   | .ite c t e => exprMentionsLoop c || refsLoop t || refsLoop e
-  | .for_ _ items body => argsMentionLoop items || refsLoop body
+  | .for_ _ items body => argsMentionLoop items || mentionsLoopDeep body
   | .while_ _ body => refsLoop body
   | .try_ b h => refsLoop b || refsLoop h
   | .block _ _ _ body => refsLoop body
@@ -92,19 +107,6 @@ def usesCaller : Tmpl → Bool
   | .try_ b h => usesCaller b || usesCaller h
   | .block _ _ _ body => usesCaller body
   | .call e _ _ => exprUsesCaller e
-  | _ => false
-
-/-- `LoopVariable` (`mangle_mako_loop`): any reference anywhere below, through every tag -/
-def mentionsLoopDeep : Tmpl → Bool
-  | .seq a b => mentionsLoopDeep a || mentionsLoopDeep b
-  | .expr e _ => exprMentionsLoop e
-  | .ite c t e => exprMentionsLoop c || mentionsLoopDeep t || mentionsLoopDeep e
-  | .for_ _ items body => argsMentionLoop items || mentionsLoopDeep body
-  | .while_ _ body => mentionsLoopDeep body
-  | .try_ b h => mentionsLoopDeep b || mentionsLoopDeep h
-  | .def_ _ _ _ body => mentionsLoopDeep body
-  | .block _ _ _ body => mentionsLoopDeep body
-  | .call _ _ body => mentionsLoopDeep body   -- `LoopVariable` has no visitCallTag: the tag's `expr` is not looked at
   | _ => false
 
 /-- what a scope knows statically -/
